@@ -221,7 +221,8 @@ def applyAdded (insert : Bool) (st : AState) (e : DPath × PyVal) : AState :=
     | some obj =>
       match insert, obj, elem with
       | true, .tuple xs, .int i =>
-        if 0 ≤ i && i.toNat < xs.length then { st with raised := some "AttributeError" }   -- 'tuple' object has no attribute 'insert'
+        if 0 ≤ i && i.toNat < xs.length then                     -- coerced to a list first, then insert + set
+          withContainer st e.1.dropLast (fun objL => (PyVal.list ((seqItems objL).take i.toNat ++ [e.2] ++ (seqItems objL).drop i.toNat), false))
         else setNewValue st e.1 e.2
       | true, .list xs, .int i =>
         if 0 ≤ i && i.toNat < xs.length then
@@ -254,14 +255,18 @@ def applySetItems (add : Bool) (st : AState) (e : DPath × List PyVal) : AState 
        | Option.none => { st with errs := st.errs + 1 })
   | _ => { st with errs := st.errs + 1 }
 
+/-- the item list `_do_iterable_opcodes` rebuilds from the old items and the recorded opcodes -/
+def replayOps (xs : List PyVal) (ops : List OpV) : List PyVal :=
+  ops.foldl (fun acc o =>
+      if o.tag == "replace" || o.tag == "insert" then acc ++ o.newValues.getD []
+      else if o.tag == "equal" then acc ++ (xs.drop o.i1).take (o.i2 - o.i1)
+      else acc) []
+
 /-- `_do_iterable_opcodes` for one path: the new item list; a list is updated in place
 (`obj[:] = transformed`), a tuple is rebuilt and re-instated in its own container (which must take
 item assignment) -/
 def applyOpcodes (st : AState) (e : DPath × List OpV) : AState :=
-  let build (xs : List PyVal) : List PyVal := e.2.foldl (fun acc o =>
-      if o.tag == "replace" || o.tag == "insert" then acc ++ o.newValues.getD []
-      else if o.tag == "equal" then acc ++ (xs.drop o.i1).take (o.i2 - o.i1)
-      else acc) []
+  let build (xs : List PyVal) : List PyVal := replayOps xs e.2
   match getAt st.root e.1 with
   | some (.list xs) =>
     (match replaceAt st.root e.1 (.list (build xs)) with
